@@ -309,7 +309,12 @@ pub fn run_shard(prop: &Property, tier: Tier, seed: u64, spec: &ShardSpec) -> Ct
                 }
                 (*i, *i + 1, Some(*s))
             }
-            None => (0, gen.count, None),
+            None => {
+                // sanitizer passes (Miri, memcheck) run a prefix of each generator: VERIF_SCALE_DIV
+                let div: u64 = std::env::var("VERIF_SCALE_DIV").ok().and_then(|s| s.parse().ok()).unwrap_or(1).max(1);
+                let n = if div == 1 { gen.count } else { (gen.count / div).max(gen.count.min(spec.nshards * 2)) };
+                (0, n, None)
+            }
         };
         let mut index = lo;
         // round-robin partition of indices over shards
